@@ -680,7 +680,7 @@ Violations(tags) == tags \ DriftTags
 
 DevAsIs     == [asis |-> TRUE, mode |-> "asis", dup |-> FALSE, sdict |-> FALSE, trailer |-> FALSE, shadow |-> FALSE,
                 refarr |-> FALSE, shared |-> FALSE, collide |-> FALSE, boundary |-> FALSE,
-                deep |-> TRUE, setmax |-> TRUE, icount |-> TRUE, bmstale |-> TRUE]
+                deep |-> FALSE, setmax |-> FALSE, icount |-> FALSE, bmstale |-> FALSE]     \* repaired: 8ecb6b6 692e806 517c497 d56c356
 DevSeeded   == [asis |-> FALSE, mode |-> "seeded", dup |-> TRUE, sdict |-> TRUE, trailer |-> TRUE, shadow |-> TRUE,
                 refarr |-> TRUE, shared |-> TRUE, collide |-> TRUE, boundary |-> TRUE,
                 deep |-> TRUE, setmax |-> TRUE, icount |-> TRUE, bmstale |-> TRUE]
@@ -688,7 +688,8 @@ DevRepaired == [asis |-> FALSE, mode |-> "repaired", dup |-> FALSE, sdict |-> FA
                 refarr |-> FALSE, shared |-> FALSE, collide |-> FALSE, boundary |-> FALSE,
                 deep |-> FALSE, setmax |-> FALSE, icount |-> FALSE, bmstale |-> FALSE]
 FormerFindings == {"delete.array.dup", "delete.streamdict", "delete.trailer", "resources.shadow", "contents.refToArray",
-                   "content.streamBoundary", "content.sharedStream", "resources.nameCollision"}
+                   "content.streamBoundary", "content.sharedStream", "resources.nameCollision",
+                   "resources.shadow.deep", "fresh.aboveMax", "maxid.setObject", "counts.indirect", "delete.bookmark"}
 
 Out(d, res) == [doc |-> d, res |-> res]
 
